@@ -13,7 +13,7 @@ under count == 1; (INSERT) no insertion into a successor/owner map silently over
 iteration order cannot leak into edge indices (sort before use); both orientations of a popped edge are looked up and all three
 edges of a new face are queued; the 26-neighbourhood is complete; (TABLE) the literal box tables are closed, consistently
 wound and outward on the {0,1}^3 lattice, and the generated cylinder quads are consistently wound and outward by the sign
-pattern of their corner lattice."""
+pattern of their corner lattice. Round 5: Mesh::get_patches is compute_patch_indices on every path (no shortcut from is_solid)."""
 NOT_DECIDED = "that patches are maximal connected components for arbitrary winding (value-level), polynomial time bounds, set-equality of results across hash seeds beyond the index-leak channel"
 ASSUMPTIONS = ["std collection semantics: pop/remove shrink by one on success, insert grows or overwrites",
                ]
